@@ -81,7 +81,7 @@ def sh(cmd, cwd=None, env=None, timeout=None, check=True):
 class Prepared:
     pass
 
-def prepare(need_cli=False, need_src=True):
+def prepare(need_cli=False, need_src=True, need_ovf=False):
     """Snapshot /repo's working tree, build the oracle against it (cached by content hash),
     regenerate the Lean tables.  Returns paths."""
     t0 = time.time()
@@ -90,9 +90,10 @@ def prepare(need_cli=False, need_src=True):
     os.makedirs(os.path.join(CACHE, "bin"), exist_ok=True)
     P.oracle = os.path.join(CACHE, "bin", "oracle-" + P.hash)
     P.cli = os.path.join(CACHE, "bin", "cli-" + P.hash)
+    P.oracle_ovf = os.path.join(CACHE, "bin", "oracleovf-" + P.hash)
     P.srcdir = os.path.join(CACHE, "src-" + P.hash)
     with Lock("build"):
-        if not os.path.exists(P.oracle) or not os.path.isdir(P.srcdir) or (need_cli and not os.path.exists(P.cli)):
+        if not os.path.exists(P.oracle) or not os.path.isdir(P.srcdir) or (need_cli and not os.path.exists(P.cli)) or (need_ovf and not os.path.exists(P.oracle_ovf)):
             os.makedirs(SNAP, exist_ok=True)
             sh(["rsync", "-a", "--delete", "--exclude", "target", "--exclude", ".git", "--exclude", "pkg",
                 "--exclude", "build_number.txt", REPO + "/", SNAP + "/"])
@@ -115,6 +116,14 @@ def prepare(need_cli=False, need_src=True):
                 return P
             shutil.copy(os.path.join(tgt, "release", "sakura-oracle"), P.oracle + ".tmp")
             os.replace(P.oracle + ".tmp", P.oracle)
+            if need_ovf:
+                r = sh(["cargo", "build", "--profile", "ovf", "--offline"], cwd=os.path.join(VERIF, "harness"),
+                       env={"CARGO_TARGET_DIR": tgt}, check=False, timeout=1200)
+                if r.returncode != 0:
+                    P.build_error = r.stdout[-6000:]
+                    return P
+                shutil.copy(os.path.join(tgt, "ovf", "sakura-oracle"), P.oracle_ovf + ".tmp")
+                os.replace(P.oracle_ovf + ".tmp", P.oracle_ovf)
             if need_cli:
                 r = sh(["cargo", "build", "--release", "--offline", "--bin", "sakuramml"], cwd=SNAP,
                        env={"CARGO_TARGET_DIR": os.path.join(CACHE, "target-cli")}, check=False, timeout=1200)
@@ -198,7 +207,7 @@ def driver_path():
 def _limits():
     resource.setrlimit(resource.RLIMIT_AS, (6 << 30, 6 << 30))
 
-def run_oracle(P, reqs, timeout_case=10.0, capture_stdout=False, tag="o"):
+def run_oracle(P, reqs, timeout_case=10.0, capture_stdout=False, tag="o", binary=None):
     """Run the real code on a list of request lines.  Survives hangs/aborts: a case that kills or
     stalls the process gets the response 'hang' / 'abort' and the run resumes after it.
     Returns list of response lines (and per-case stdout when asked)."""
@@ -216,7 +225,7 @@ def run_oracle(P, reqs, timeout_case=10.0, capture_stdout=False, tag="o"):
         procs.append(dict(w=w, idxs=idxs, rq=rq, rs=os.path.join(tmp, "res%d" % w), so=os.path.join(tmp, "out%d" % w), start=0, extra={}))
     def launch(p):
         p["fo"] = open(p["so"], "ab")
-        p["proc"] = subprocess.Popen([P.oracle, p["rq"], p["rs"], str(p["start"])], stdout=p["fo"], stderr=subprocess.DEVNULL, preexec_fn=_limits)
+        p["proc"] = subprocess.Popen([binary or P.oracle, p["rq"], p["rs"], str(p["start"])], stdout=p["fo"], stderr=subprocess.DEVNULL, preexec_fn=_limits)
         p["last_n"] = -1; p["last_t"] = time.time()
     def nres(p):
         try:
@@ -318,10 +327,11 @@ class Stream:
 
 def run_stream(P, st):
     reqs = [c["req"] for c in st.cases]
+    binary = P.oracle_ovf if getattr(st, "variant", None) == "ovf" else None      # the build with arithmetic overflow checks on
     if st.capture_stdout:
-        impl, outs = run_oracle(P, reqs, st.timeout_case, True, tag=st.name)
+        impl, outs = run_oracle(P, reqs, st.timeout_case, True, tag=st.name, binary=binary)
     else:
-        impl = run_oracle(P, reqs, st.timeout_case, tag=st.name); outs = None
+        impl = run_oracle(P, reqs, st.timeout_case, tag=st.name, binary=binary); outs = None
     parsed = [parse_resp(l) for l in impl]
     mreqs = []; spans = []
     for i, c in enumerate(st.cases):
